@@ -105,6 +105,7 @@ type result struct {
 	n        int
 	stat     p9p.Dir
 	tab      []ramfs.VerifNode
+	gone     [][3]int64 // tracked nodes no longer reachable from the root: qid path, nref, number of children (-1: no map)
 }
 
 var errClass = map[string]string{
@@ -200,7 +201,11 @@ func (res result) sexp(o op) sx.S {
 		for _, n := range rows {
 			l = append(l, sx.L(sx.Str(n.Path), sx.I(int64(n.Nref)), sx.I(int64(n.Links)), sx.Bool(n.IsDir), sx.I(int64(n.Len))))
 		}
-		return sx.L(ok, sx.List(l))
+		g := []sx.S{sx.Sym("gone")}
+		for _, n := range res.gone {
+			g = append(g, sx.L(sx.I(n[0]), sx.I(n[1]), sx.I(n[2])))
+		}
+		return sx.L(ok, sx.List(l), sx.List(g))
 	}
 	return sx.L(ok)
 }
@@ -210,11 +215,28 @@ func (res result) sexp(o op) sx.S {
 type impl struct {
 	fs    p9p.FileSys
 	sess  []p9p.Session
-	isDir []map[uint32]bool // per session: fid -> last opened as a directory (from the returned qid)
+	isDir []map[uint32]bool            // per session: fid -> last opened as a directory (from the returned qid)
+	nodes map[uint64]ramfs.VerifEntRef // every node a fid ever held, by qid path
+}
+
+// track remembers the nodes the fid's handle holds (entry and parent chain).
+func (im *impl) track(s int, fid uint32) {
+	ent, _, ok := p9p.VerifFidEnt(im.sess[s], p9p.Fid(fid))
+	if !ok || ent == nil {
+		return
+	}
+	refs, ok := ramfs.VerifHandleEnts(ent)
+	if !ok {
+		return
+	}
+	for _, r := range refs {
+		qp, _, _ := r.State()
+		im.nodes[qp] = r
+	}
 }
 
 func newImpl(nsess int) *impl {
-	im := &impl{fs: ramfs.VerifNewServer()}
+	im := &impl{fs: ramfs.VerifNewServer(), nodes: map[uint64]ramfs.VerifEntRef{}}
 	for i := 0; i < nsess; i++ {
 		im.sess = append(im.sess, p9p.SFileSys(im.fs))
 		im.isDir = append(im.isDir, map[uint32]bool{})
@@ -247,22 +269,41 @@ func (im *impl) do(o op) (res result) {
 		if !ok {
 			panic("VerifRefTable: not a ramfs server")
 		}
-		return result{tab: tab}
+		var qps []uint64
+		for qp := range im.nodes {
+			qps = append(qps, qp)
+		}
+		sort.Slice(qps, func(i, j int) bool { return qps[i] < qps[j] })
+		var gone [][3]int64
+		for _, qp := range qps {
+			if r := im.nodes[qp]; !ramfs.VerifLinked(im.fs, r) {
+				_, nref, nk := r.State()
+				gone = append(gone, [3]int64{int64(qp), int64(nref), int64(nk)})
+			}
+		}
+		return result{tab: tab, gone: gone}
 	}
 	s := im.sess[o.s]
 	fid := p9p.Fid(o.fid)
 	switch o.kind {
 	case "attach":
 		res.qid, res.err = s.Attach(ctx, fid, p9p.NOFID, o.uname, "/")
+		if res.err == nil {
+			im.track(o.s, o.fid)
+		}
 	case "walk":
 		res.qids, res.err = s.Walk(ctx, fid, p9p.Fid(o.newfid), o.names...)
 		if res.err == nil && len(res.qids) == len(o.names) && o.newfid != o.fid {
 			delete(im.isDir[o.s], o.newfid)
 		}
+		if res.err == nil && len(res.qids) == len(o.names) {
+			im.track(o.s, o.newfid)
+		}
 	case "create":
 		res.qid, _, res.err = s.Create(ctx, fid, o.name, o.perm, p9p.Flag(o.mode))
 		if res.err == nil {
 			im.isDir[o.s][o.fid] = res.qid.Type&p9p.QTDIR != 0
+			im.track(o.s, o.fid)
 		}
 	case "open":
 		res.qid, _, res.err = s.Open(ctx, fid, p9p.Flag(o.mode))
@@ -404,6 +445,18 @@ func (r *ref) check(o op, res result, fail failFn) {
 	}
 	if o.kind == "reftable" {
 		r.checkTable(res.tab, fail)
+		nfids := 0
+		for _, m := range r.fids {
+			nfids += len(m)
+		}
+		for _, g := range res.gone {
+			if g[1] < 0 || (nfids == 0 && g[1] != 0) {
+				fail("ramfs.refcount:unlinked-nref", fmt.Sprintf("node with qid path %d is no longer in the tree (no parent links) but has nref=%d with %d fids bound", g[0], g[1], nfids))
+			}
+			if nfids == 0 && g[2] > 0 {
+				fail("ramfs.refcount:unlinked-children", fmt.Sprintf("node with qid path %d left the tree and no fid is bound, but it still links %d children", g[0], g[2]))
+			}
+		}
 		return
 	}
 	fids := r.fids[o.s]
